@@ -9,6 +9,7 @@ Rigidity hypotheses: `IsRigid p` = `RᵀR = 1` for the rotation block, `IsRot` a
 -/
 import EvoModel.Lemmas.Metrics
 import EvoModel.Lemmas.MetricsReal
+import EvoModel.Lemmas.Pipeline
 namespace Evo.C01
 open Evo
 
@@ -254,6 +255,117 @@ theorem apePlan_refusal (o : CommonOpts) :
       obtain ⟨pre, hp, _⟩ := apePlan_ok_iff.mp h
       exact absurd hc (prePlan_ok_iff.mp hp).1
 
+/-! ### evo_ape end to end inside the model (`Model/Pipeline.lean`)
+
+`apeRun` executes the plan steps with the models of C11 (down-sampling, motion filter, time range),
+C05 (association), C04/C03 (alignment), C14 (projection) on rational trajectories.  Parameters
+(`Params`, from evo's own run, certified by the owning property): the Umeyama triple, the projected
+directions, the accumulated distances / rotation angles the motion filter compares.  Computed: which
+poses remain, how they are paired, the maps applied to them, every error core. -/
+
+open Pipeline in
+/-- **the stored error values are `apeCore` of exactly the remaining pose pairs.**  If `apeRun` returns
+`res`: the selection phase (down-sampling, motion filter, time range on the reference, association)
+yields two equally long lists `sel.1`, `sel.2` of *input* poses (each with its stamp and its index in
+its input trajectory: `refIds`, `estIds`, `stamps` of the result); the processed reference is their
+projection, processed estimate pose `k` is the projection of `T·alignPose(est_k)` (pose by pose:
+`alignPose` from the Umeyama parameters, `T` the origin transformation); and the values are
+`apeCore rel` of pair `k`, for every `k`, in order — one value per associated pair. -/
+theorem apeRun_values_are_apeCore_of_remaining_pairs {o : CommonOpts} {P : Params} {ref est : Traj}
+    {res : ApeResult} (h : apeRun o P ref est = .ok res) :
+    ∃ (sel : List TPose × List TPose) (g : List (Pose Rat) × List (Pose Rat)),
+      selectPairs o P ref est = .ok sel ∧
+      (∀ x ∈ sel.1, ref.stamps[x.2.2]? = some x.1 ∧ ref.poses[x.2.2]? = some x.2.1) ∧
+      (∀ x ∈ sel.2, est.stamps[x.2.2]? = some x.1 ∧ est.poses[x.2.2]? = some x.2.1) ∧
+      res.refIds = idsOf sel.1 ∧ res.estIds = idsOf sel.2 ∧ res.stamps = stampsOf sel.2 ∧
+      g.1 = projAll o.plane P.dirsRef (posesOf sel.1) ∧
+      g.2 = projAll o.plane P.dirsEst (((posesOf sel.2).map (alignPose o P)).map
+              (Pose.mul (originT o (posesOf sel.1) ((posesOf sel.2).map (alignPose o P))))) ∧
+      res.values = List.zipWith (apeCore o.rel) g.1 g.2 ∧
+      res.values.length = sel.1.length ∧ sel.1.length = sel.2.length := by
+  unfold apeRun at h
+  obtain ⟨sel, hsel, h⟩ := (bind_ok_iff _ _ _).mp h
+  obtain ⟨g, hg, h⟩ := (bind_ok_iff _ _ _).mp h
+  obtain ⟨vals, hv, h⟩ := (bind_ok_iff _ _ _).mp h
+  obtain ⟨u, _, h⟩ := (bind_ok_iff _ _ _).mp h
+  injection h with h; subst h
+  obtain ⟨m1, m2⟩ := selectPairs_mem hsel
+  obtain ⟨g1, g2, l1, l2⟩ := geometry_ok hg
+  obtain ⟨hl, _, _, hz⟩ := ape_ok_iff.mp (liftMetric_ok.mp hv)
+  have e1 : sel.1.length = g.1.length := by rw [l1]; simp [posesOf]
+  have e2 : sel.2.length = g.2.length := by rw [l2]; simp [posesOf]
+  refine ⟨sel, g, hsel, fun x hx => mem_tagTraj (m1 x hx), fun x hx => mem_tagTraj (m2 x hx), rfl, rfl, rfl,
+    g1, g2, hz, ?_, ?_⟩
+  · simp only [hz, List.length_zipWith, ← hl, Nat.min_self, e1]
+  · rw [e1, e2, hl]
+
+open Pipeline in
+/-- with timestamps, the remaining pairs are C05's association of the (cropped) reference with the
+estimate: index lists into those, every pair within `t_max_diff` after the offset (C05) -/
+theorem apeRun_remaining_pairs_are_the_association {o : CommonOpts} {P : Params} {ref est : Traj}
+    {sel : List TPose × List TPose} (h : selectPairs o P ref est = .ok sel) (hs : o.hasStamps = true) :
+    ∃ r3 e2 ids1 ids2, (∀ x ∈ r3, x ∈ tagTraj ref) ∧ (∀ x ∈ e2, x ∈ tagTraj est) ∧
+      Sync.associateIds (r3.map Prod.fst) (e2.map Prod.fst) o.tMaxDiff o.tOffset = .ok (ids1, ids2) ∧
+      sel.1 = reduceIds r3 ids1 ∧ sel.2 = reduceIds e2 ids2 ∧ ids1.length = ids2.length ∧
+      ∀ p ∈ List.zip ids1 ids2, ∃ (hi : p.1 < (r3.map Prod.fst).length) (hj : p.2 < (e2.map Prod.fst).length),
+        absR ((r3.map Prod.fst)[p.1] - ((e2.map Prod.fst)[p.2] + o.tOffset)) ≤ o.tMaxDiff := by
+  obtain ⟨r2, e2, r3, m1, m2, hc, ha⟩ := selectPairs_sync h hs
+  obtain ⟨⟨ids1, ids2, hi, h1, h2⟩, _, _⟩ :=
+    C05.associate_poses_are_input_poses r3 e2 o.tMaxDiff o.tOffset sel.1 sel.2 ha
+  exact ⟨r3, e2, ids1, ids2, fun x hx => m1 x (stageCrop_mem hc x hx), m2, hi, h1, h2,
+    C05.associate_equal_length _ _ _ _ _ _ hi, C05.associate_offset_both_orderings _ _ _ _ _ _ hi⟩
+
+open Pipeline in
+/-- **which refusals propagate**: `apeRun` fails exactly with the error of the first failing phase
+(selection → geometry → metric → unit change); nothing is swallowed, nothing is added -/
+theorem apeRun_refusals (o : CommonOpts) (P : Params) (ref est : Traj) (e : RunErr) :
+    apeRun o P ref est = .error e ↔
+      selectPairs o P ref est = .error e ∨
+      ∃ sel, selectPairs o P ref est = .ok sel ∧
+        (geometry o P (posesOf sel.1) (posesOf sel.2) = .error e ∨
+         ∃ g, geometry o P (posesOf sel.1) (posesOf sel.2) = .ok g ∧
+           (liftMetric (ape o.rel g.1 g.2) = .error e ∨
+            ∃ v, liftMetric (ape o.rel g.1 g.2) = .ok v ∧ unitStep o.rel o.changeUnit = .error e)) := by
+  unfold apeRun
+  simp only [bind_error_iff]
+  constructor
+  · rintro (h | ⟨sel, hs, h | ⟨g, hg, h | ⟨v, hv, h | ⟨u, _, h⟩⟩⟩⟩)
+    · exact Or.inl h
+    · exact Or.inr ⟨sel, hs, Or.inl h⟩
+    · exact Or.inr ⟨sel, hs, Or.inr ⟨g, hg, Or.inl h⟩⟩
+    · exact Or.inr ⟨sel, hs, Or.inr ⟨g, hg, Or.inr ⟨v, hv, h⟩⟩⟩
+    · cases h
+  · rintro (h | ⟨sel, hs, h | ⟨g, hg, h | ⟨v, hv, h⟩⟩⟩)
+    · exact Or.inl h
+    · exact Or.inr ⟨sel, hs, Or.inl h⟩
+    · exact Or.inr ⟨sel, hs, Or.inr ⟨g, hg, Or.inl h⟩⟩
+    · exact Or.inr ⟨sel, hs, Or.inr ⟨g, hg, Or.inr ⟨v, hv, Or.inl h⟩⟩⟩
+
+open Pipeline in
+/-- the refusals by cause: unequal numbers of remaining poses → `MetricsException`; a relative rotation
+outside the SO(3) tolerance under an angle relation → `LieAlgebraException`; an empty association →
+`SyncException`; degenerate alignment input → `GeometryException` -/
+theorem apeRun_refusal_causes (o : CommonOpts) (P : Params) (ref est : Traj)
+    (sel : List TPose × List TPose) (g : List (Pose Rat) × List (Pose Rat))
+    (hs : selectPairs o P ref est = .ok sel) (hg : geometry o P (posesOf sel.1) (posesOf sel.2) = .ok g) :
+    (sel.1.length ≠ sel.2.length → apeRun o P ref est = .error .metrics) ∧
+    (sel.1.length = sel.2.length → o.rel ≠ .ratio → o.rel.isAngle = true →
+      (apeRots g.1 g.2).all isSo3Approx = false → apeRun o P ref est = .error .lie) := by
+  obtain ⟨_, _, l1, l2⟩ := geometry_ok hg
+  have e1 : g.1.length = sel.1.length := by rw [l1]; simp [posesOf]
+  have e2 : g.2.length = sel.2.length := by rw [l2]; simp [posesOf]
+  constructor
+  · intro hne
+    have : ape o.rel g.1 g.2 = .error .unequal := ape_refuses_unequal _ _ _ (by rw [e1, e2]; exact hne)
+    unfold apeRun
+    simp [hs, hg, this, Except.bind, liftMetric]
+  · intro heq hr ha hbad
+    have : ape o.rel g.1 g.2 = .error .notSO3 := by
+      unfold ape
+      rw [if_neg (by rw [e1, e2]; exact not_not.mpr heq), if_neg hr, if_pos ⟨ha, hbad⟩]
+    unfold apeRun
+    simp [hs, hg, this, Except.bind, liftMetric]
+
 /-! ### non-vacuity: concrete instances of the hypotheses -/
 
 /-- rotation by 90° about z -/
@@ -279,5 +391,20 @@ example : apePlan optsFull = .ok [.downsample 5, .motionFilter (1/10) 5, .cropRe
     .associate (1/100) (-1/2), .align .scaleOnly 3, .alignOrigin, .project .xy, .metricApe .trans, .changeUnit .mm] := by
   decide +kernel
 example : apePlan { optsFull with hasStamps := false } = .error .filterNeedsStamps := by decide +kernel
+
+/-- a complete run: 4 reference and 3 estimate poses, `--t_start 1/2 -s --align_origin`; the first reference
+pose is cropped, the estimate stamped 1/100 late is associated, scale 2 and the origin transformation applied -/
+def runRef : Pipeline.Traj := ⟨[0, 1, 2, 3], [⟨M3.one, ⟨0, 0, 0⟩⟩, ⟨M3.one, ⟨1, 0, 0⟩⟩, ⟨rz, ⟨2, 0, 0⟩⟩, ⟨rz, ⟨3, 1, 0⟩⟩]⟩
+def runEst : Pipeline.Traj := ⟨[101/100, 201/100, 301/100], [⟨M3.one, ⟨5, 5, 0⟩⟩, ⟨rz, ⟨11/2, 5, 0⟩⟩, ⟨M3.one, ⟨6, 6, 0⟩⟩]⟩
+def runPar : Pipeline.Params := ⟨355/113, ⟨[], #[]⟩, ⟨[], #[]⟩, M3.one, ⟨0, 0, 0⟩, 2, [], [], ⟨[], [], #[]⟩⟩
+def runOpts : CommonOpts :=
+  ⟨true, none, none, some (1/2), none, 1/50, 0, false, true, -1, true, none, .trans, none⟩
+example : Pipeline.apeRun runOpts runPar runRef runEst
+    = .ok ⟨[.sqrt 0, .sqrt 0, .sqrt 1], none, [1, 2, 3], [0, 1, 2], [101/100, 201/100, 301/100]⟩ := by decide +kernel
+example : Pipeline.apeRun { runOpts with tMaxDiff := 1/1000 } runPar runRef runEst = .error .sync := by decide +kernel
+example : Pipeline.apeRun { runOpts with hasStamps := false, correctScale := false } runPar runRef runEst = .error .metrics := by
+  decide +kernel
+/-- alignment of unequally long paths is refused by Umeyama first -/
+example : Pipeline.apeRun { runOpts with hasStamps := false } runPar runRef runEst = .error .geometry := by decide +kernel
 
 end Evo.C01
